@@ -141,6 +141,14 @@ fn main() {
             let (threads, per) = if quick { (8, 500) } else { (16, 20_000) };
             vmon::c10::run(seed, threads, per)
         }
+        "c11-limits" => {
+            let w = vmon::c11::Work {
+                defaults: vec![0, 1, 7, 1024, 65536],
+                per_combo: if quick { 40 } else { 800 },
+                huge: !quick,
+            };
+            vmon::c11::run(seed, &w)
+        }
         "c05-exhaustive" => {
             let ns = n as u64;
             sharded(n, move |s| vmon::c05::run_exhaustive(s, ns))
